@@ -5,7 +5,8 @@
 From Coq Require Import ZArith QArith List Bool String.
 From KV Require Import Base.Sx Base.Str Gen.Generated Model.Prune Model.LostMap Proofs.C06P
                        Model.TimeFreq Proofs.TimeFreqP Model.TimeFreqPre Proofs.TimeFreqPreP
-                       Model.TimeFreqVfw Proofs.TimeFreqVfwP Model.TimeFreqX Proofs.TimeFreqXP.
+                       Model.TimeFreqVfw Proofs.TimeFreqVfwP Model.TimeFreqX Proofs.TimeFreqXP
+                       Model.TimeFreqCbf Proofs.TimeFreqCbfP.
 Import ListNotations.
 Open Scope Q_scope.
 
@@ -404,3 +405,37 @@ Theorem C17_equal_windows_equal_channels : forall u w k, (s_n w <> 0)%Z -> spw_e
   chan_freq u k == chan_freq w k /\ chan_width u == chan_width w.
 Proof. exact spw_eq_freqs. Qed.
 Print Assumptions C17_equal_windows_equal_channels.
+
+(* ---- clause 1: where the correlator dump period comes from (visdatav4._cbf_attrs + the try / except of __init__) ---- *)
+(* the interpreted lookups of the source ARE the documented chain src_streams[0] -> <corr>_int_time, <corr>_n_accs,
+   <corr>_src_streams[0] -> <feng>_instrument_dev_name -> <instrument>_scale_factor_timestamp, for every attribute
+   dictionary on which that chain is well typed: complete -> the period; any link missing / an empty stream list -> lite *)
+Theorem C17_cbf_period_chain : forall a, spec_cbf a <> CRaises -> cbf_period a = spec_cbf a.
+Proof. exact cbf_period_spec. Qed.
+Print Assumptions C17_cbf_period_chain.
+
+Theorem C17_cbf_period_complete : forall a cs l p na fs l' inst sf,
+  aget "src_streams" a = Some (AList (cs :: l)) -> aget (cs ++ "_int_time") a = Some (ANum p) ->
+  aget (cs ++ "_n_accs") a = Some na -> aget (cs ++ "_src_streams") a = Some (AList (fs :: l')) ->
+  aget (fs ++ "_instrument_dev_name") a = Some (AStr inst) -> aget (inst ++ "_scale_factor_timestamp") a = Some sf ->
+  cbf_period a = CPeriod p /\ t_cbf_of a = Some p.
+Proof. exact cbf_full_chain. Qed.
+Print Assumptions C17_cbf_period_complete.
+
+(* a lite or partially stripped RDB: no period, so no correction whatever the capture date *)
+Theorem C17_cbf_lite_no_fix : forall tm a, spec_cbf a = CLite ->
+  t_cbf_of a = None /\ forall i, spec_timestamp (timing_with_attrs tm a) i == raw_stamp tm i.
+Proof. exact cbf_lite_no_fix. Qed.
+Print Assumptions C17_cbf_lite_no_fix.
+
+Theorem C17_cbf_source_constants :
+  gen_cbf_result = ["int_time"; "n_accs"; "f_engine_stream"; "scale_factor_timestamp"]%string /\
+  gen_cbf_lite_exceptions = ["IndexError"; "KeyError"]%string /\
+  gen_cbf_prog = [CbfStep "correlator_stream" None "src_streams" true;
+                  CbfStep "int_time" (Some "correlator_stream") "_int_time" false;
+                  CbfStep "n_accs" (Some "correlator_stream") "_n_accs" false;
+                  CbfStep "f_engine_stream" (Some "correlator_stream") "_src_streams" true;
+                  CbfStep "f_engine_instrument" (Some "f_engine_stream") "_instrument_dev_name" false;
+                  CbfStep "scale_factor_timestamp" (Some "f_engine_instrument") "_scale_factor_timestamp" false]%string.
+Proof. exact cbf_source_documented. Qed.
+Print Assumptions C17_cbf_source_constants.
